@@ -141,6 +141,11 @@ def torch_value(name, args, xs, extra):
         if d not in (1, (1, 1)):
             return None           # torch's avg_pool has no dilation
         return [getattr(TF, name)(X[0], k, s_, p, count_include_pad=True)]
+    if name == "nn_unfold" and "padv" in extra:
+        # torch pads with zeros only: pad by hand with the requested value, then unfold without padding
+        ph, pw = _tuple(args["p"]) if isinstance(_tuple(args["p"]), tuple) else (args["p"], args["p"])
+        xp = TF.pad(X[0], (pw, pw, ph, ph), value=float(extra["padv"]))
+        return [TF.unfold(xp, _tuple(args["k"]), dilation=_tuple(args["d"]), padding=0, stride=_tuple(args["s"]))]
     if name == "nn_unfold":
         return [TF.unfold(X[0], _tuple(args["k"]), dilation=_tuple(args["d"]), padding=_tuple(args["p"]), stride=_tuple(args["s"]))]
     if name == "nn_fold":
@@ -172,6 +177,8 @@ def check_catalogue(reg, tier, seed=0, limit=None):
                 continue
             if isinstance(args.get("p"), str):
                 continue
+            if od.may_reject(args):
+                continue          # extensions beyond what torch accepts ("reject or be right"): nothing to compare with
             env = E.Env("plain64", point={}, rng=random.Random(rnd.random()))
             env.autosample = True
             try:
